@@ -348,7 +348,9 @@ def worker(shard, nshards, plan, quick):
 
 def char_alphabet():
     return [" ", "\n", "'", '"', "`", "\\", "$", "-", "/", "*", "#", ".", ",", ";", "(", ")", "[", "{", ":", "=", "<", "@", "?",
-            "e", "x", "b", "0", "1", "_", "a", "N", "%", "\0", "é"]
+            "e", "x", "b", "0", "1", "_", "a", "N", "%", "\0", "é",
+            # letters whose upper / lower case form is LONGER than the letter (a scanner that rewinds by the length of a case-folded text)
+            "ß", "İ"]
 
 
 def run(ctx: Ctx) -> None:
@@ -390,6 +392,10 @@ def run(ctx: Ctx) -> None:
             plan.append(("transpile_all", d, sqls[i:i + 150]))
     for d in (dialects if quick else all_dialects()):
         plan.append(("chars", d, char_alphabet(), 3 if quick else 4, ["IMMEDIATE"]))
+    if quick:
+        for d in all_dialects():
+            if d not in dialects:
+                plan.append(("chars", d, char_alphabet(), 2, ["IMMEDIATE"]))   # every dialect's tokenizer sees every pair of characters
     res = ctx.run_shards(worker, ctx.jobs * 4, plan, quick)
     viol = {}
     for sig, v in res["viol"]:
@@ -429,7 +435,7 @@ def run(ctx: Ctx) -> None:
             "distinct_nontrivial": res["nontrivial"],
             "rule": "every 1-token mutant (delete/duplicate/swap; insert of each of 43 menu tokens for the simplest seeds) and every prefix of "
                     "G_core k<=1 statements, of identity.sql and of every statement of tests/dialects/*.py in its own dialect (" + str(len(corpus.dialect_test_sql())) + " seeds); every token soup of length <= 3 over the 43-token menu; every "
-                    "character string of length <= 3 over a 34-character alphabet; 84 pumping families (repetition to 64, nesting to 32; every construct with an expression / query hole nested in itself to 8) in all dialects; every registered function name and type keyword nested in itself to depth 4 and 8; x dialects x "
+                    "character string of length <= 3 over a 36-character alphabet; 84 pumping families (repetition to 64, nesting to 32; every construct with an expression / query hole nested in itself to 8) in all dialects; every registered function name and type keyword nested in itself to depth 4 and 8; x dialects x "
                     "error levels; every returned tree generated in its own and the base dialect; every G_clauses statement (base) and every "
                     "dialect-test statement (own dialect) generated into ALL dialects; every function name registered by each dialect's parser called "
                     "with 0..5 positional arguments, DISTINCT, * and named arguments. non-trivial = runs that ended in a "
